@@ -44,7 +44,8 @@ Inductive err :=
 | ErrAllFailed (n : nat)     (* "All n folding strategies failed..." *)
 | ErrUnknown.                (* "Unknown folding error" (chaperone_loop.py:201) *)
 
-Definition attempt := (strategy * bool * option err)%type.   (* FoldingAttempt without duration *)
+Definition attempt := (strategy * bool * option err)%type.   (* FoldingAttempt without duration_ms: the durations
+                                                                 are threaded separately, see THE CLOCK below *)
 
 Record oracles := mkOracles {
   o_strip : Z -> outcome Z;                  (* text.strip() *)
@@ -673,6 +674,189 @@ Fixpoint run_fresh (reg : registry) (ops : list hop) : list (hout N) :=
 End History.
 
 (* ---------------------------------------------------------------------- *)
+(* THE CLOCK (chaperone.py:217/221/238 and 287/291/304).
+   Every iteration of the strategy loop reads time.time() before the strategy
+   runs (`start`, outside the try) and once more afterwards - after the attempt
+   returned, or in the `except Exception` handler - and stores
+   duration = (time.time() - start) * 1000 in the FoldingAttempt it records.
+   The clock is an ORACLE like the others: [clk k] is what the k-th reading
+   made during one public call returns - ANY function (a clock that stands
+   still, steps backwards, ticks coarsely), in the number type of the
+   confidences (binary64 in the executed instance).  The definitions below are
+   the loops above with the readings and the recorded durations threaded
+   through; Proofs.v shows that forgetting the timing gives back exactly the
+   untimed functions, whatever the clock does.  [timing] = (number of readings
+   made so far, durations stored in the attempts list so far). *)
+
+Definition timing (N : num) := (nat * list (T N))%type.
+
+Section Timed.
+Variable N : num.
+Variable O : oracles.
+Variable C : config.
+Variable clk : nat -> T N.
+
+(* (time.time() - start) * 1000 *)
+Definition duration (t0 t1 : T N) : T N := nmul N (nsub N t1 t0) (of_len N 1000).
+
+Fixpoint fold_loop_t (strats : list strategy) (processed : Z) (st : stats) (atts : list attempt)
+                     (k : nat) (ds : list (T N))
+  : loop_res pres * stats * list call * timing N :=
+  match strats with
+  | [] => (LExhausted atts, st, [], (k, ds))
+  | s :: rest =>
+      let st1 := inc_attempts st s in
+      let t0 := clk k in                                   (* start = time.time() *)
+      let '(r, l) := attempt_fold O C s processed in
+      match r with
+      | Ret res =>
+          let d := duration t0 (clk (S k)) in              (* duration = (time.time() - start) * 1000 *)
+          if p_valid res then
+            (* the plain fold returns no attempt list: the duration is dropped *)
+            (LFound (mkP true (p_structure res) None), inc_success st1 s, l, (S (S k), ds))
+          else
+            let '(r', st', l', tm) :=
+              fold_loop_t rest processed st1 (atts ++ [(s, false, p_error res)]) (S (S k)) (ds ++ [d]) in
+            (r', st', l ++ l', tm)
+      | Raises e =>
+          if outer_catches e then
+            let d := duration t0 (clk (S k)) in            (* except Exception: duration = ... *)
+            let '(r', st', l', tm) :=
+              fold_loop_t rest processed st1 (atts ++ [(s, false, Some (ErrStr e))]) (S (S k)) (ds ++ [d]) in
+            (r', st', l ++ l', tm)
+          else (LRaised e, st1, l, (S k, ds))
+      end
+  end.
+
+Fixpoint fold_loop_enhanced_t (strats : list strategy) (processed : Z) (st : stats) (atts : list attempt)
+                              (k : nat) (ds : list (T N))
+  : loop_res (eres N) * stats * list call * timing N :=
+  match strats with
+  | [] => (LExhausted atts, st, [], (k, ds))
+  | s :: rest =>
+      let st1 := inc_attempts st s in
+      let t0 := clk k in
+      let '(r, l) := attempt_fold_enhanced N O C s processed in
+      match r with
+      | Ret res =>
+          let d := duration t0 (clk (S k)) in
+          if e_valid res then
+            (* result.attempts = attempts + [FoldingAttempt(strategy, True, duration)] *)
+            (LFound (with_attempts N res (atts ++ [(s, true, None)])), inc_success st1 s, l, (S (S k), ds ++ [d]))
+          else
+            let '(r', st', l', tm) :=
+              fold_loop_enhanced_t rest processed st1 (atts ++ [(s, false, e_error res)]) (S (S k)) (ds ++ [d]) in
+            (r', st', l ++ l', tm)
+      | Raises e =>
+          if outer_catches e then
+            let d := duration t0 (clk (S k)) in
+            let '(r', st', l', tm) :=
+              fold_loop_enhanced_t rest processed st1 (atts ++ [(s, false, Some (ErrStr e))]) (S (S k)) (ds ++ [d]) in
+            (r', st', l ++ l', tm)
+          else (LRaised e, st1, l, (S k, ds))
+      end
+  end.
+
+(* fold / fold_enhanced when [k] readings have been made before the call *)
+Definition fold_t (ctor arg : list strategy) (raw : Z) (st : stats) (k : nat)
+  : outcome pres * stats * list call * timing N :=
+  let st1 := inc_total st in
+  let strategies := effective ctor arg in
+  match preprocess O C raw with
+  | (Raises e, l0) => (Raises e, st1, l0, (k, []))
+  | (Ret processed, l0) =>
+      match fold_loop_t strategies processed st1 [] k [] with
+      | (LFound r, st2, l1, tm) => (Ret r, st2, l0 ++ l1, tm)
+      | (LRaised e, st2, l1, tm) => (Raises e, st2, l0 ++ l1, tm)
+      | (LExhausted atts, st2, l1, tm) =>
+          let '(r, l2) := misfold O C (p_fail (ErrAllFailed (length strategies))) atts in
+          (r, st2, l0 ++ l1 ++ l2, tm)
+      end
+  end.
+
+Definition fold_enhanced_t (ctor arg : list strategy) (raw : Z) (st : stats) (k : nat)
+  : outcome (eres N) * stats * list call * timing N :=
+  let st1 := inc_total st in
+  let strategies := effective ctor arg in
+  match preprocess O C raw with
+  | (Raises e, l0) => (Raises e, st1, l0, (k, []))
+  | (Ret processed, l0) =>
+      match fold_loop_enhanced_t strategies processed st1 [] k [] with
+      | (LFound r, st2, l1, tm) => (Ret r, st2, l0 ++ l1, tm)
+      | (LRaised e, st2, l1, tm) => (Raises e, st2, l0 ++ l1, tm)
+      | (LExhausted atts, st2, l1, tm) =>
+          let '(r, l2) := misfold O C (mkE N false None (Some (ErrAllFailed (length strategies)))
+                                           atts (lit_0_0 N) [] None) atts in
+          (r, st2, l0 ++ l1 ++ l2, tm)
+      end
+  end.
+
+(* ChaperoneLoop.heal does not read the clock itself; the folds it makes do.
+   Timing returned: readings made by all its folds, durations in the attempts
+   list of the fold it hands back (none when it hands back none). *)
+Fixpoint heal_loop_t (ctor : list strategy) (gen : nat -> Z) (decay : T N)
+                     (fuel k : nat) (st : stats) (atts : list (rattempt N)) (n : nat)
+  : outcome (hres N) * stats * list (list call) * timing N :=
+  match fuel with
+  | Datatypes.O => (Ret (mkH N HDegraded None atts (lit_0_0 N) true), st, [], (n, []))
+  | S fuel' =>
+      let raw := gen k in
+      match fold_enhanced_t ctor [] raw st n with
+      | (Raises e, st', l, tm) => (Raises e, st', [l], (fst tm, []))
+      | (Ret r, st', l, tm) =>
+          if e_valid r then
+            let c := cur_conf N decay k in
+            let r' := with_conf N r (nmin N (e_conf r) c) in
+            (Ret (mkH N (match k with Datatypes.O => HValidFirstTry | S _ => HHealed end) (Some r')
+                      (atts ++ [mkRA N k raw None true c]) (e_conf r') false), st', [l], tm)
+          else
+            let et := match e_error r with Some e => e | None => ErrUnknown end in
+            let '(res, st'', ls, tm') :=
+              heal_loop_t ctor gen decay fuel' (S k) st' (atts ++ [mkRA N k raw (Some et) false (lit_0_0 N)]) (fst tm) in
+            (res, st'', l :: ls, tm')
+      end
+  end.
+
+Definition heal_t (ctor : list strategy) (gen : nat -> Z) (max_retries : Z) (decay : T N) (st : stats)
+  : outcome (hres N) * stats * list (list call) * timing N :=
+  heal_loop_t ctor gen decay (Z.to_nat (max_retries + 1)) 0 st [] 0.
+
+End Timed.
+
+Section HistoryTimed.
+Variable N : num.
+Variable B : base.
+Variable ctor : list strategy.
+
+(* one call of a history under the clock this call sees (readings counted from 0) *)
+Definition hstep_t (clk : nat -> T N) (s : cstate) (op : hop) : cstate * hout N * timing N :=
+  match op with
+  | HFold raw sch arg =>
+      let co := lookup_co (cs_reg s) sch in
+      let '(r, st', l, tm) := fold_t N (oracles_for B sch co) (config_for B co) clk ctor arg raw (cs_stats s) 0 in
+      (mkCS st' (cs_reg s), OPlain r l, tm)
+  | HFoldEnhanced raw sch arg =>
+      let co := lookup_co (cs_reg s) sch in
+      let '(r, st', l, tm) := fold_enhanced_t N (oracles_for B sch co) (config_for B co) clk ctor arg raw (cs_stats s) 0 in
+      (mkCS st' (cs_reg s), OEnh r l, tm)
+  | HRegister sch co => (mkCS (cs_stats s) ((sch, co) :: cs_reg s), ONone, (0%nat, []))
+  | HReset => (mkCS stats0 (cs_reg s), ONone, (0%nat, []))
+  | HHeal gen sch mr m e =>
+      let co := lookup_co (cs_reg s) sch in
+      let '(r, st', ls, tm) := heal_t N (oracles_for B sch co) (config_for B co) clk ctor gen mr (of_dyadic N m e) (cs_stats s) in
+      (mkCS st' (cs_reg s), OHeal r ls, tm)
+  end.
+
+(* a history in which every call has its own clock *)
+Fixpoint run_hist_t (s : cstate) (ops : list (hop * (nat -> T N))) : list (hout N * timing N) :=
+  match ops with
+  | [] => []
+  | (op, clk) :: rest => let '(s', o, tm) := hstep_t clk s op in (o, tm) :: run_hist_t s' rest
+  end.
+
+End HistoryTimed.
+
+(* ---------------------------------------------------------------------- *)
 (* oracle tables recorded from the implementation (correspondence check)    *)
 (* every row is a list of Z:
      outcome of X encoded as  code :: payload   with code 0 = returned,
@@ -854,6 +1038,8 @@ Record case := mkCase {
                                     | [4; schema; max_retries; m; e; raw0; raw1; ...] ChaperoneLoop.heal with
                                       confidence_decay = m * 2^e and a generator whose k-th call returns raw_k
                                       (the last one from then on) *)
+  c_clock : list (list Z);       (* per op: the readings of time.time() made during it, [m0; e0; m1; e1; ...]
+                                    (reading k = m_k * 2^e_k; readings never made: 0) *)
   c_tab : otab }.
 
 Definition op_of (row : list Z) : hop :=
@@ -867,15 +1053,32 @@ Definition op_of (row : list Z) : hop :=
 Definition reg_of (rows : list (list Z)) : registry :=
   flat_map (fun r => match r with [a; b] => [(a, b)] | _ => [] end) rows.
 
-Fixpoint run_obs (B : base) (ctor : list strategy) (s : cstate) (ops : list hop) : list (list Z) :=
+(* the clock of one op from its row of readings *)
+Fixpoint clock_of (row : list Z) (k : nat) : float :=
+  match row, k with
+  | m :: e :: _, Datatypes.O => of_dyadic numF m e
+  | _ :: _ :: rest, S k' => clock_of rest k'
+  | _, _ => lit_0_0 numF
+  end.
+
+(* durations the caller can see: the attempts list of an enhanced result / the one handed to on_misfold *)
+Definition timing_obs (hm : bool) (o : hout numF) (tm : timing numF) : list Z :=
+  let ds := match o with
+            | OPlain (Ret p) _ => if p_valid p then [] else if hm then snd tm else []
+            | OPlain (Raises _) _ => if hm then snd tm else []
+            | _ => snd tm
+            end in
+  [-4; Z.of_nat (fst tm)] ++ flat_map float_obs ds.
+
+Fixpoint run_obs (B : base) (ctor : list strategy) (s : cstate) (ops : list (hop * (nat -> float))) : list (list Z) :=
   match ops with
   | [] => []
-  | op :: rest =>
-      let '(s', o) := hstep numF B ctor s op in
+  | (op, clk) :: rest =>
+      let '(s', o, tm) := hstep_t numF B ctor clk s op in
       (match o with
-       | OPlain r l => [[-2; 0]; pres_obs r; stats_obs (cs_stats s')] ++ flat_map call_obs l
-       | OEnh r l => [[-2; 1]] ++ eres_obs r ++ [stats_obs (cs_stats s')] ++ flat_map call_obs l
-       | OHeal r ls => [[-2; 4]] ++ hres_obs r ++ [stats_obs (cs_stats s')] ++ folds_obs 0 ls
+       | OPlain r l => [[-2; 0]; pres_obs r; stats_obs (cs_stats s'); timing_obs (b_has_misfold B) o tm] ++ flat_map call_obs l
+       | OEnh r l => [[-2; 1]] ++ eres_obs r ++ [stats_obs (cs_stats s'); timing_obs (b_has_misfold B) o tm] ++ flat_map call_obs l
+       | OHeal r ls => [[-2; 4]] ++ hres_obs r ++ [stats_obs (cs_stats s'); timing_obs (b_has_misfold B) o tm] ++ folds_obs 0 ls
        | ONone => match op with
                   | HRegister _ _ => [[-2; 2]]
                   | _ => [[-2; 3]; stats_obs (cs_stats s')]
@@ -884,8 +1087,10 @@ Fixpoint run_obs (B : base) (ctor : list strategy) (s : cstate) (ops : list hop)
   end.
 
 Definition run_case (c : case) : list (list Z) :=
+  let ops := map op_of (c_ops c) in
   run_obs (base_of (c_cfg c) (c_tab c)) (map strategy_of (c_ctor c))
-          (mkCS stats0 (reg_of (c_reg0 c))) (map op_of (c_ops c)).
+          (mkCS stats0 (reg_of (c_reg0 c)))
+          (combine ops (map (fun i => clock_of (nth i (c_clock c) [])) (seq 0 (length ops)))).
 
 (* ---------------------------------------------------------------------- *)
 (* specification vocabulary used by the theorems (definitions only)         *)
